@@ -15,6 +15,10 @@ StylesBoth == {"eol", "direct"}
 CutsNone == {"none"}
 CutsAll == {"none", "afterID", "afterIDws", "beforeEI", "afterEIws"}
 OnlyIntended == {{}}
+OnlySP == {32}
+IDDelimsAll == {32, 10, 13, 9}
+\* first data bytes that matter behind the delimiter: LF, CR, SP, other
+AlphaFirst == {10, 13, 32, 120}
 NoLead == {<<>>}
 \* the inline image in the 1st, 2nd, 3rd stream of the array, after streams of 2, 17+2 and 40 bytes
 LeadsAll == {<<>>, <<2>>, <<17, 2>>, <<40>>}
